@@ -161,7 +161,7 @@ def units(tier, seed):
   return us
 
 
-WIDE_KINDS = ['list12', 'tuple11', 'intdict', 'negintdict', 'modlist12', 'mixed']
+WIDE_KINDS = ['list12', 'tuple11', 'intdict', 'negintdict', 'modlist12', 'mixed', 'pop-path']
 
 
 def _wide_graph(kind, seed):
@@ -225,8 +225,79 @@ def _walk(obj, path=(), seen=None, out=None):
   return out
 
 
+def _run_pop_path(res):
+  """pop with path-dependent filters on a Variable shared between two slots: it is removed
+  (and returned, once) at the first path in sorted order at which a filter selects it."""
+  import itertools
+  import jax.numpy as jnp
+  from flax import nnx
+
+  class Sub(nnx.Module):
+    pass
+
+  def build():
+    r = Sub()
+    r.a, r.b = Sub(), Sub()
+    v = nnx.Param(jnp.asarray(1.0))
+    r.a.w, r.b.w = v, v
+    r.b.s = nnx.Param(jnp.asarray(2.0))
+    r.a.t = nnx.BatchStat(jnp.asarray(3.0))
+    return r
+
+  paths = [('a', 't'), ('a', 'w'), ('b', 's'), ('b', 'w')]   # sorted traversal order
+  keyset = ['a', 'b', 'w', 's', 't']
+  for k1 in keyset:
+    for k2 in [None] + keyset:
+      filters = [nnx.PathContains(k1)] + ([nnx.PathContains(k2)] if k2 else [])
+      ftxt = [k1] + ([k2] if k2 else [])
+      # reference: walk the paths in order; a shared Variable already popped is skipped
+      exp = [dict() for _ in filters]
+      popped_ids = set()
+      removed = []
+      for p in paths:
+        ident = 'shared' if p[1] == 'w' else p
+        if ident in popped_ids:
+          continue
+        for gi, kk in enumerate(ftxt):
+          if kk in p:
+            exp[gi][p] = True
+            popped_ids.add(ident)
+            removed.append(p)
+            break
+      g = build()
+      res['evals'] += 1
+      res['transitions'] += 1
+      key = f'pop-path|{ftxt}'
+      try:
+        out = nnx.pop(g, *filters)
+      except Exception as e:  # noqa
+        core.violation(res, f'wide-pop-raises|{key}', f'{type(e).__name__}: {str(e)[:200]}',
+                       dict(filters=ftxt))
+        continue
+      out = out if isinstance(out, tuple) else (out,)
+      got = [sorted(tuple(p) for p, _ in nnx.to_flat_state(s)) for s in out]
+      if got != [sorted(e) for e in exp]:
+        core.violation(res, f'wide-pop-states|{key}',
+                       'pop did not return each selected Variable once, in the state of the first '
+                       'filter that selects it at its first selecting path', dict(filters=ftxt),
+                       observed=[list(map(list, x)) for x in got],
+                       expected=[sorted(map(list, e)) for e in exp])
+      left = sorted(p for p in paths if hasattr(getattr(g, p[0]), p[1]))
+      if left != sorted(p for p in paths if p not in removed):
+        core.violation(res, f'wide-pop-graph|{key}', 'pop removed the wrong attributes',
+                       dict(filters=ftxt), observed=list(map(list, left)),
+                       expected=[list(p) for p in paths if p not in removed])
+      core.outcome(res, f'pop-path:{len(removed)}-removed')
+      res['nontrivial'].append(core.h(['pop-path', ftxt]))
+  res['states'] += 1
+  res['samples'].append(dict(fam='wide', kind='pop-path', filters=['a', 'w']))
+
+
 def _run_wide(res, kind):
   from flax import nnx
+  if kind == 'pop-path':
+    _run_pop_path(res)
+    return
   g = _wide_graph(kind, _seed())
   before = _walk(g)
   case = dict(kind=kind)
